@@ -88,6 +88,8 @@ def apply(ctx, W):
                     && forall|s: int| slot_end(fns, fns.len() as int)->0 <= s < out.len() ==> is_placeholder(#[trigger] out[s], s as nat)
             })""", ("C04",), "fields-vftable-slots"),
             ("res is Err ==> fields_bad(definition.statements@)", ("C03",), "no-spurious-field-rejection"),
+            # C10: the field block defers only while the type of some field does not resolve in the module's scope
+            ("""res is Ok && res->Ok_0 is None ==> field_unresolved(&semantic.type_registry, module_scope(module), definition.statements@)""", ("C10",), "fields-defer-only-while-unresolved"),
         ])
     rules.let_type(fw, top_let("vftable_functions"), "Option<Vec<Function>>")
     rules.for_to_index_loop(ctx, fw, u2, l_stmts, seq="definition.statements", ivar="i_s")
@@ -399,6 +401,17 @@ def apply(ctx, W):
             })""", ("C15", "C17"), "build-flags"),
             # C03 "every other description fails", read backwards through the glue: an error of the whole function has one of
             # the reasons the segments give (the converse direction used to be proved per segment only)
+            # C10 "every type gets resolved however long the dependency chains are", per attempt: a deferral (Ok(None)) means that
+            # a field type does not resolve yet, the first base is unsized, or some field cannot be placed because its type has no
+            # size yet (or the running address would overflow) - reasons that resolving the dependencies removes
+            ("""res is Ok && res->Ok_0 is None ==> module_of(old(semantic), *resolvee_path) is Some && ({
+                    let reg0 = &old(semantic).type_registry; let sc = module_scope(&module_of(old(semantic), *resolvee_path)->0);
+                    ||| field_unresolved(reg0, sc, definition.statements@)
+                    ||| exists|pend: Seq<(Option<usize>, Region)>| #![trigger fields_built(reg0, sc, definition.statements@, definition.statements@.len() as int, pend)]
+                            fields_built(reg0, sc, definition.statements@, definition.statements@.len() as int, pend)
+                            && ((first_base_of(pend) is Some && ty_size(first_base_of(pend)->0.type_ref, reg0) is None)
+                                || layout_defers(pend, &final(semantic).type_registry))
+                })""", ("C10",), "build-defers-only-while-dependencies-unresolved"),
             ("""res is Err ==> module_of(old(semantic), *resolvee_path) is None || type_rejection_explained(&old(semantic).type_registry,
                     module_scope(&module_of(old(semantic), *resolvee_path)->0), *definition, impl_block_of(&module_of(old(semantic), *resolvee_path)->0, *resolvee_path),
                     &final(semantic).type_registry, *resolvee_path)""", ("C03",), "build-no-spurious-rejection"),
